@@ -289,6 +289,11 @@ fn iter_shapes_case(ilen: usize, flen: usize) {
     assert!(a == b, "C16 chained / filtered iterators give the same Number");
     let c = parse_number(int.iter().take(ilen).skip(0), Plain { s: &frac[..flen], i: 0 }, e);
     assert!(a == c, "C16 take/skip and a hand-written iterator give the same Number");
+    // iterators whose size_hint is NOT exact (lower bound 0) on the integer side
+    let f = parse_number(int[..ilen].iter().filter(always), frac[..flen].iter(), e);
+    assert!(a == f, "C16 a filtering integer iterator gives the same Number (digits are counted, not estimated)");
+    let g = parse_number(Plain { s: &int[..ilen], i: 0 }, frac[..flen].iter(), e);
+    assert!(a == g, "C16 a hand-written integer iterator gives the same Number");
     let int2 = int;
     let frac2 = frac;
     let d = parse_number(int2[..ilen].iter(), frac2[..flen].iter(), e);
